@@ -189,11 +189,13 @@ func H_C20_skips() {
 	k := vxrt.Len("skip-calls", 1, vxrt.Param("skips", 3))
 	for s := 0; s < k; s++ {
 		t := vxNewT(names[vxrt.Choice("who", len(names))])
-		w := vxrt.Choice("wrapper", 3)
+		w := vxrt.Choice("wrapper", 4)
 		after := false
 		// the body runs on its own goroutine and the skip ends it, as with a real testing.T
 		vxRunTest(t, func() {
 			switch w {
+			case 3:
+				Skip(t) // no reason given
 			case 0:
 				Skip(t, "x")
 			case 1:
@@ -292,6 +294,16 @@ func H_C20_clean_summary() {
 		vxWriteFile(dir+"/f.snap", vxFrame("TestM - 1", "one")+vxFrame("TestOld - 1", "stale in f")+vxFrame("TestM - 2", "two")+vxFrame("TestOld - 2", string(long)))
 		vxWriteFile(dir+"/g.snap", vxFrame("TestM - 1", "gee")+vxFrame("TestOld - 1", "stale in g"))
 	}
+	// the newly recorded value may be one line of 70 000 bytes (a minified document): the file
+	// then holds a line longer than bufio's default token limit when Clean reads it
+	three := "three"
+	if withAdd && vxrt.Bool("the-new-snapshot-is-one-70KB-line") {
+		buf := make([]byte, 70000)
+		for i := range buf {
+			buf[i] = 'y'
+		}
+		three = string(buf)
+	}
 	nPassed, nFailed, nAdded := 0, 0, 0
 	for r := 0; r < count; r++ {
 		t := vxNewT("TestM")
@@ -309,7 +321,7 @@ func H_C20_clean_summary() {
 			nPassed++
 		}
 		if withAdd {
-			c.MatchSnapshot(t, "three")
+			c.MatchSnapshot(t, three)
 			if r == 0 {
 				nAdded++
 			} else {
